@@ -60,7 +60,7 @@ def _case(draw, tier, force_pre_entry=False):
         "stop_none": draw(st.booleans()),  # a route gate that ends the loop by deciding None rather than END
         # the gate is cacheable and the loop runs three times on one runner that carries a cache (decisions are restored from it)
         "cache_gate": prob(draw, 0.3),
-        "b0_waits": draw(st.booleans()), "const_emitter": draw(st.booleans()),  # long self-signal form: see loops.py
+        "b0_waits": draw(st.booleans()), "const_emitter": draw(st.booleans()), "gate_free_running": draw(st.booleans()),  # long self-signal form: see loops.py
     }
     if form in ("selfsignal", "chat") or L["acc"]:
         L["nullable"] = False
